@@ -1469,7 +1469,22 @@ pub fn classify_err(e: &lance::Error) -> ScanErr {
 }
 
 /// Location of the most recent panic (set by the hook in main.rs); best effort, for witnesses.
-pub static LAST_PANIC: std::sync::Mutex<String> = std::sync::Mutex::new(String::new());
+pub static LAST_PANIC: std::sync::Mutex<Vec<(String, String)>> = std::sync::Mutex::new(Vec::new());
+
+/// Remember where a panic with this message happened (called from the panic hook).
+pub fn note_panic(msg: &str, loc: &str) {
+    if let Ok(mut g) = LAST_PANIC.lock() {
+        g.retain(|(m, _)| m != msg);
+        g.push((msg.to_string(), loc.to_string()));
+        if g.len() > 64 {
+            g.remove(0);
+        }
+    }
+}
+
+pub fn panic_location(msg: &str) -> String {
+    LAST_PANIC.lock().ok().and_then(|g| g.iter().rev().find(|(m, _)| m == msg).map(|(_, l)| l.clone())).unwrap_or_default()
+}
 
 pub const OP_TIMEOUT: Duration = Duration::from_secs(120);
 
@@ -1489,7 +1504,7 @@ where
             } else {
                 "panic".to_string()
             };
-            let loc = LAST_PANIC.lock().map(|g| g.clone()).unwrap_or_default();
+            let loc = panic_location(&msg);
             Err(ScanErr::Failed(format!("panic: {msg} [at {loc}]")))
         }
         Ok(Ok(Err(e))) => Err(classify_err(&e)),
